@@ -232,26 +232,33 @@ Definition labels_of (g : cfg) (s : list st) : list label :=
 Definition next_set (g : cfg) (s : list st) (l : label) : list st :=
   cl g (add_new (map snd (filter (fun p => label_eqb l (fst p)) (flat_map (lab_succ g) s))) []).
 
-Fixpoint bisim (acc : bool) (g1 g2 : cfg) (fuel : nat) (todo visited : list (list st * list st)) : bool :=
+(* three-valued: [None] = the search budget ran out (no verdict) *)
+Fixpoint bisim (acc : bool) (g1 g2 : cfg) (fuel : nat) (todo visited : list (list st * list st)) : option bool :=
   match fuel with
-  | O => false
+  | O => None
   | S n =>
       match todo with
-      | [] => true
+      | [] => Some true
       | (s1, s2) :: rest =>
           if existsb (fun v => seteq s1 (fst v) && seteq s2 (snd v)) visited then bisim acc g1 g2 n rest visited
           else
             let l1 := labels_of g1 s1 in
             let l2 := labels_of g2 s2 in
-            (negb acc || Bool.eqb (accepting g1 s1) (accepting g2 s2))
-            && forallb (fun l => existsb (label_eqb l) l2) l1
-            && forallb (fun l => existsb (label_eqb l) l1) l2
-            && bisim acc g1 g2 n (map (fun l => (next_set g1 s1 l, next_set g2 s2 l)) l1 ++ rest) ((s1, s2) :: visited)
+            if (negb acc || Bool.eqb (accepting g1 s1) (accepting g2 s2))
+               && forallb (fun l => existsb (label_eqb l) l2) l1
+               && forallb (fun l => existsb (label_eqb l) l1) l2
+            then bisim acc g1 g2 n (map (fun l => (next_set g1 s1 l, next_set g2 s2 l)) l1 ++ rest) ((s1, s2) :: visited)
+            else Some false
       end
   end.
 Definition start (g : cfg) : list st := match g_entry g with Some e => cl g [(e, O)] | None => [] end.
-(* acc = true: additionally compare the words that end at the end of the exit block *)
-Definition lang_eq (acc : bool) (g1 g2 : cfg) : bool := bisim acc g1 g2 2000 [(start g1, start g2)] [].
+(* acc = true: additionally compare the words that end at the end of the exit block.
+   The oracle only ever reports a DIFFERENCE that the search exhibited (a reachable pair of state sets
+   with different labels / acceptance): when the budget of 2000 pairs is exhausted it is silent (true). *)
+Definition lang_eq (acc : bool) (g1 g2 : cfg) : bool :=
+  match bisim acc g1 g2 2000 [(start g1, start g2)] [] with Some b => b | None => true end.
+Definition lang_budget_ok (acc : bool) (g1 g2 : cfg) : bool :=
+  match bisim acc g1 g2 2000 [(start g1, start g2)] [] with Some _ => true | None => false end.
 
 (* what the property text says append must be: the first graph, then a fresh copy of the second,
    joined by one unconditional edge exit(a) -> entry(b'); entry of a, exit of b'.  (Appending to a
